@@ -133,7 +133,7 @@ APPEND = {
          'overlapping, late-starting and early-ending lists in the seed-list data flow; kept share against the light-curve integral over the intervals. '
          'gen_count_pdf_eq_model / _pointwise / _unabsorbed (spectrum at E(1+z), effective area and absorption at E, on the current source), gen_vign_keep_eq_model, gen_vign_keep_prob.', ''),
  'C04': ('; apply_dead_time (loop) and _finalize (orchestration skeleton) are regenerated from the source and proved equal to / composed into the model',
-         ' T-tie: gen_apply_dead_time_eq_model, gen_dead_time_spaced (imperative translator), gen_finalize_eq_model / gen_finalize_rows (the order, guards and arguments of the steps of _finalize, '
+         ' Events of different components inside one microsecond; one list written twice with different dead times. T-tie: gen_apply_dead_time_eq_model, gen_dead_time_spaced (imperative translator), gen_finalize_eq_model / gen_finalize_rows (the order, guards and arguments of the steps of _finalize, '
          'regenerated by translator/skeltrans.py, composed with the models of the steps into the model of the whole); ROI models sharing component objects (every SRC_ID in the ROITABLE).',
          ' The synthetic-file writer hands write_fits a real xROIModel and response set.'),
  'C05': ('; fill_livetime (array code) and _finalize (orchestration) are regenerated from the source and proved equal to the model',
@@ -158,7 +158,7 @@ APPEND = {
          ' Application histories: a run from scratch, the same run resumed with the DU 1 file in place (--overwrite False), the same run again in the process, on a configuration with an '
          'instrumental background.', ''),
  'C12': ('; the loaders and the response set (call forwarding resolved against the callee signatures) are regenerated from the source',
-         ' T-tie of the glue: gen_set_members, gen_loaders_agree_with_set, gen_set_flavour_faithful (Gen/Loaders.lean); every member of a loaded set is checked to come from the file of '
+         ' A response set inspected after it has been used (conversions beyond the last channel, a photon list and an event list drawn with it). T-tie of the glue: gen_set_members, gen_loaders_agree_with_set, gen_set_flavour_faithful (Gen/Loaders.lean); every member of a loaded set is checked to come from the file of '
          'the requested name (intent with its weighting flavour, version).', ''),
  'C15': ('; build_cdf, build_ppf and rvs_bounded are regenerated from the source (imperative translator on real arrays) and proved equal to the model',
          ' T-tie: gen_build_ppf_eq_model (de-duplication before normalisation + index array = the model quantile nodes, for every density with a non-zero integral), gen_build_cdf_eq_model, '
@@ -173,7 +173,7 @@ APPEND = {
          'gen_bisect_odd_eq_model (sorted marks); the trajectory layer on a stub trajectory incl. windows without any transition; threshold-directed queries.',
          ' The orbit propagation (SGP4, JPL ephemeris) is outside the model: the SAA / occultation status functions are parameters.'),
  'C19': ('; the persistence, copy and arithmetic methods of xHistogramBase are regenerated from the source (object / n-d array translator) and are the model by rfl',
-         ' T-tie: gen_save_eq_model, gen_from_file_eq_model, gen_copy_eq_model, gen_set_content_eq_model, gen_add/sub/mul_eq_model, gen_hist_load_save, gen_hist_cycles_stable, gen_hist_copy_eq; '
+         ' An event file starting at MET 0 exactly among those binned. T-tie: gen_save_eq_model, gen_from_file_eq_model, gen_copy_eq_model, gen_set_content_eq_model, gen_add/sub/mul_eq_model, gen_hist_load_save, gen_hist_cycles_stable, gen_hist_copy_eq; '
          'histograms whose content equals their entries while the errors differ, slices of 2-d histograms.', ''),
  'C20': ('; harmonic_addition (the double loop) is regenerated from the source and proved equal to the model',
          ' T-tie: gen_harmonic_addition_eq_model, gen_harmonic_addition_is_stokes_sum, gen_harmonic_perm_invariant; power-law ranges starting at zero energy (oracle only).', ''),
